@@ -783,3 +783,54 @@ def rule_nameprint(ctx):
             res.inst(ikey, f["sp"]["file"], f["sp"]["line"], "ok", docmodel.render(docs[0])[:60])
     res.require_floor(3)
     return res
+
+
+def rule_pspan(ctx):
+    """R-PSPAN: the printed text does not depend on source positions"""
+    from ..mir import place_fields, rvalue_places
+    fx = ctx.fx
+    res = RuleResult("R-PSPAN", "the printers of the Fun syntax tree never read a node's source span (the `span` fields): two trees that are equal "
+                     "up to positions - a file and its formatted version - are printed to the same text. A layout decision taken from a span "
+                     "makes the second formatting differ from the first, since formatting itself changes every position")
+    printers = [k for k, f in fx.fns.items() if f["crate"] == "fun" and "Print>::print" in k and "{promoted" not in k]
+    if len(printers) < 20:
+        raise AnalysisError("R-PSPAN: only %d printer bodies of the Fun syntax tree found" % len(printers))
+    # helpers of the crate called from a printer (not themselves printers, not the parser): followed transitively
+    todo, seen = list(printers), set(printers)
+    while todo:
+        k = todo.pop()
+        for b in fx.fns[k]["blocks"]:
+            t = b["term"]
+            if t["k"] != "call":
+                continue
+            k2 = t.get("resolved_key") or t.get("callee_key")
+            g = fx.fns.get(k2)
+            if g and g["crate"] == "fun" and k2 not in seen and "::parser" not in k2 and "::typing::" not in k2:
+                seen.add(k2)
+                todo.append(k2)
+        for k2 in fx.fns:
+            if k2.startswith(k + "::{closure") and k2 not in seen:
+                seen.add(k2)
+                todo.append(k2)
+    n = 0
+    for k in sorted(seen):
+        f = fx.fns[k]
+        n += 1
+        hit = None
+        for b in f["blocks"]:
+            for s in b["stmts"]:
+                if s["k"] == "assign":
+                    for pl, _r in rvalue_places(s["rv"]):
+                        if "span" in place_fields(pl):
+                            hit = hit or s["sp"]
+            t = b["term"]
+            for a in t.get("args", []) if t["k"] == "call" else []:
+                if a.get("pl") and "span" in place_fields(a["pl"]):
+                    hit = hit or t["sp"]
+        if hit:
+            ikey = k.split("::{")[0]
+            res.inst(ikey, hit["file"], hit["line"], "violation")
+            res.violate(ikey, "%s reads a source span while printing: the text then depends on where the node stood in the file, and formatting "
+                        "the formatted file gives a different text" % ikey.split(" as ")[0].lstrip("<").split("::")[-1], hit["file"], hit["line"])
+    res.inst("fun:printers", "lang/fun/src/syntax/program.rs", 1, "ok", "%d printer bodies and helpers scanned, none reads a span" % n, nontrivial=False)
+    return res
